@@ -269,7 +269,7 @@ def split_args(toks):
 def find_function(text, qualname, nth=0, sig_contains=None):
     """Locate the definition of `qualname` (e.g. NumberDataType::parseInput or free isMaster).
     Definitions start in column 0 in this code base.  Returns dict with spans into `text`."""
-    pat = re.compile(r'^(?P<ret>[A-Za-z_][\w:<>\*&\s]*?[\s\*&])' + re.escape(qualname) + r'\s*\(', re.M)
+    pat = re.compile(r'^(?P<ret>[A-Za-z_][\w:<>\*&\s,]*?[\s\*&])' + re.escape(qualname) + r'\s*\(', re.M)
     cands = []
     for m in pat.finditer(text):
         # parameter list
